@@ -620,19 +620,22 @@ def handle_failure(ctx, stream, np, ops, r, ofail, label):
             'impl_rc': rr['rc'], 'impl_stderr_tail': rr['stderr'][-1500:] if rr['stderr'] else '',
             'oracle_failures': of[:10], 'harness': getattr(stream.harness, '__name__', stream.harness),
             'driver': stream.driver}
+    # an oracle failure may carry a third element: a stable `site` id used by known_findings.json
+    site = of[0][2] if of and len(of[0]) > 2 else getattr(stream, 'site', None)
     if rr['status'] == 'impl-crash':
         # a crash / sanitizer abort / timeout of the real code on a generated input is a concrete failing input
         info['verdict'] = 'implementation aborted (rc=%s) on this input' % rr['rc']
         path, key = write_replay(ctx, stream, np, small, info)
-        report(ctx, path, key, True, info['verdict'])
+        report(ctx, path, key, True, info['verdict'], site=getattr(stream, 'crash_site', None))
     elif rr['status'] == 'invariant':
         info['verdict'] = 'model invariant false on an implementation state: %s' % (rr['model'][i] if rr['model'] else '')
         path, key = write_replay(ctx, stream, np, small, info)
         report(ctx, path, key, True, info['verdict'])
     elif of:
         info['verdict'] = 'property oracle fails on the implementation output: %s' % (of[0][1],)
+        info['site'] = site
         path, key = write_replay(ctx, stream, np, small, info)
-        report(ctx, path, key, True, info['verdict'])
+        report(ctx, path, key, True, info['verdict'], site=site)
     else:
         # Stage C: the correspondence broke but the property holds on this input: search further
         found = stage_c_search(ctx, stream, np)
